@@ -412,6 +412,9 @@ func c19One(env *fw.Env, cs c19Case) {
 			// sound direction only: tsBefore precedes the moment the library could enter Selected (and start the
 			// linktest timer); threshold probe rounds of (interval wait + T6 timeout) cannot finish sooner
 			fail("silent-peer-dropped-too-early", fmt.Sprintf("closed %v after the select exchange began; %d rounds of interval %v + T6 %v cannot have elapsed", el, cs.Threshold, interval, t6))
+		} else if fp := time.Duration(firstProbe.Load()); fp > 0 && closedAt-fp > time.Duration(cs.Threshold)*(t6+interval)+3*time.Second {
+			// upper bound ("about threshold x (interval + T6)"), from the first probe's arrival at the peer, 3 s of slack
+			fail("silent-peer-dropped-late", fmt.Sprintf("the first unanswered probe reached the peer and the link was closed only %v later; threshold %d x (interval %v + T6 %v) = %v is prescribed", (closedAt - fp).Round(time.Millisecond), cs.Threshold, interval, t6, time.Duration(cs.Threshold)*(t6+interval)))
 		} else {
 			env.Event("silent_peer_dropped_after_threshold", 1)
 		}
